@@ -38,6 +38,26 @@ def discover_helpers(model) -> Dict[str, FuncInfo]:
     return out
 
 
+def _ends_with_raise(fn, node, par) -> bool:
+    """every block from `node` up to the function body is followed (eventually) by an unconditional raise"""
+    from ..visitors import _always_exits
+    cur = node
+    while cur is not None and cur is not fn:
+        p = par.get(cur)
+        if p is None:
+            break
+        for name in ("body", "orelse", "finalbody"):
+            blk = getattr(p, name, None)
+            if isinstance(blk, list) and cur in blk:
+                rest = blk[blk.index(cur) + 1:]
+                if rest and _always_exits(rest) and isinstance(rest[-1], ast.Raise):
+                    return True
+        if isinstance(p, ast.ExceptHandler):
+            pass
+        cur = p
+    return False
+
+
 def constraints_loop_rule(ctx, vc):
     """validate_constraints: each constraint of the tuple is evaluated exactly once, each failure formatted."""
     from ..pathcond import parents_of, path_condition
@@ -101,6 +121,13 @@ def constraints_loop_rule(ctx, vc):
                                 best = a
                 ok = best is not None and norm(best.value) == f"{cp}[{norm(l.target)}]"
             ctx.check(ok, "C02.R9", construct, c, f"`{short(c, 50)}`: `{recv}` is not the constraint selected by the enclosing loop (the same constraint is evaluated again, or a stale one)", vc, c, detail=f"{recv} = {cp}[<loop var>]")
+            # a failing constraint produces a message
+            guard = parents.get(c)
+            while guard is not None and not isinstance(guard, ast.If):
+                guard = parents.get(guard)
+            has_msg = guard is not None and isinstance(guard.test, ast.UnaryOp) and isinstance(guard.test.op, ast.Not) and any(
+                isinstance(x, ast.Call) and dotted(x.func) == "format_error" and x.args and norm(x.args[0]) == f"{recv}.error" for st_ in guard.body for x in ast.walk(st_))
+            ctx.check(has_msg, "C02.R9", construct + ":message", c, f"the failure of `{short(c, 40)}` produces no message: the violated constraint is not reported", vc, c, detail="format_error(c.error, data) under `if not c.validate(data)`")
         if isinstance(c, ast.Call) and dotted(c.func) == "format_error":
             cond = path_condition(fn, c, parents)
             conj = cond.values if isinstance(cond, ast.BoolOp) else [cond]
@@ -504,6 +531,28 @@ def check(ctx):
                       "a constraint failure is raised without the pending children errors: sibling violations are hidden", vc, n)
 
     constraints_loop_rule(ctx, vc)
+    # ---------------- R11: handlers of other exception classes never swallow
+    ctx.rule("C02.R11", "in a node method, a handler of TypeError / KeyError / ValueError / OverflowError raises a ValidationError, records one, or falls through to the function's final raise: it never lets the element be dropped silently", floor=8)
+    from ..visitors import _always_exits
+    for fi in own_methods(deser_nodes(model)):
+        fn = fi.node
+        par = stmt_parent_map(fn)
+        for n in walk_no_nested(fn):
+            if not isinstance(n, ast.Try):
+                continue
+            for h in n.handlers:
+                if h.type is None or is_ve(model, fi, h.type):
+                    continue
+                names = norm(h.type)
+                construct = f"{fi.qualname}:except {names}@{short(n.body[0], 40)}"
+                raises = _always_exits(h.body) and (isinstance(h.body[-1], ast.Raise) or not any(isinstance(x, ast.Return) for s_ in h.body for x in ast.walk(s_)))
+                records = any(
+                    (isinstance(x, ast.Assign) and isinstance(x.value, ast.Call) and (dotted(x.value.func) or "").split(".")[-1] in (helper_names | {"merge_errors"}))
+                    or (isinstance(x, ast.Assign) and isinstance(x.targets[0], ast.Subscript) and isinstance(x.value, ast.Call) and (dotted(x.value.func) or "").endswith("ValidationError"))
+                    for s_ in h.body for x in ast.walk(s_))
+                falls_to_raise = all(isinstance(s_, (ast.Pass, ast.Continue)) for s_ in h.body) and _ends_with_raise(fn, n, par)
+                ctx.check(raises or records or falls_to_raise, "C02.R11", construct, h.body[0],
+                          f"`except {names}` neither raises nor records an error: the offending element is silently dropped and the node returns a value for non-conforming data", fi, h, detail="raise / record / fall through to the final raise")
     # ---------------- R10: order of the flattened errors
     ctx.rule("C02.R10", "ValidationError.errors lists children in natural key order (indices numerically); the stringifying sort key is only the fallback for incomparable keys", floor=2)
     em = model.func(f"{ERRORS_MOD}.ValidationError._errors")
@@ -676,6 +725,7 @@ def mutants(mb):
     mb.add_text("vc-stale-constraint", P, "                constraint = constraints[j]\n", "", "C02.R9", "validate@inner")
     mb.add_text("vc-inner-negated", P, "                if not constraint.validate(data):\n                    errors.append(", "                if constraint.validate(data):\n                    errors.append(", "C02.R9", "format#1")
     mb.add_text("vc-inner-from-i", P, "            for j in range(i + 1, len(constraints)):", "            for j in range(i, len(constraints)):", "C02.R9", "range:inner")
+    mb.add_text("vc-message-deleted", P, "                    errors.append(format_error(constraint.error, data))", "                    pass", "C02.R9", "validate@inner:message")
     mb.add_text("vc-message-dropped", P, "                    errors.append(format_error(constraint.error, data))", "                    format_error(constraint.error, data)", "C02.R9", "format-kept#1")
     mb.add_text("carry-and", P, "            raise ValidationError(errors, children_errors or {})", "            raise ValidationError(errors, children_errors and {})", "C02.R9", "carry:children_errors")
     mb.add_text("carry-and-object", P, "        elif field_errors or errors:\n            raise ValidationError(errors or [], field_errors or {})", "        elif field_errors or errors:\n            raise ValidationError(errors and [], field_errors or {})", "C02.R9", "carry:errors")
@@ -683,6 +733,8 @@ def mutants(mb):
                 "    errors: List[str] = []\n    for constraint in constraints:\n        if not constraint.validate(data):\n            errors.append(format_error(constraint.error, data))\n    if errors:\n        raise ValidationError(errors, children_errors or {})\n", negative=True)
     mb.add_text("errors-always-keyed-sort", "apischema/validation/errors.py", "        try:\n            child_keys = sorted(self.children)\n        except TypeError:  # keys of different types, e.g. str and int\n            child_keys = sorted(\n                self.children, key=lambda key: (key.__class__.__name__, str(key))\n            )\n", "        child_keys = sorted(\n            self.children, key=lambda key: (key.__class__.__name__, str(key))\n        )\n", "C02.R10", "_errors")
     mb.add_text("errors-unsorted", "apischema/validation/errors.py", "        try:\n            child_keys = sorted(self.children)\n        except TypeError:  # keys of different types, e.g. str and int\n            child_keys = sorted(\n                self.children, key=lambda key: (key.__class__.__name__, str(key))\n            )\n", "        child_keys = list(self.children)\n", "C02.R10", "_errors")
+    mb.add_text("set-unhashable-swallowed", P, "            except TypeError:\n                elt_errors = set_child_error(\n                    elt_errors, i, ValidationError(\"unhashable set element\")\n                )\n", "            except TypeError:\n                pass\n", "C02.R11", "SetMethod")
+    mb.add_text("conversion-union-error-dropped", P, "                error = merge_errors(error, ValidationError(str(err)))\n", "                pass\n", "C02.R11", "ConversionUnionMethod")
     mb.add_text("flattened-fbd-polarity", P, "                    if not flattened_field.fall_back_on_default:", "                    if flattened_field.fall_back_on_default:", "C02.R7", "ObjectMethod:aggregate")
     mb.add_text("pattern-children-dropped", P, "                    if not pattern_field.fall_back_on_default:\n                        errors = extend_errors(errors, err.messages)\n                        field_errors = update_children_errors(\n                            field_errors, err.children\n                        )", "                    if not pattern_field.fall_back_on_default:\n                        errors = extend_errors(errors, err.messages)", "C02.R7", "ObjectMethod:aggregate:halves")
     mb.add_text("optout-polarity", P, "                    if field.required or not field.fall_back_on_default:\n                        field_errors = set_child_error(field_errors, field.alias, err)\n            elif field.required:\n                field_errors = set_child_error(\n                    field_errors, field.alias, ValidationError(self.missing)\n                )\n        has_discriminator", "                    if field.required or field.fall_back_on_default:\n                        field_errors = set_child_error(field_errors, field.alias, err)\n            elif field.required:\n                field_errors = set_child_error(\n                    field_errors, field.alias, ValidationError(self.missing)\n                )\n        has_discriminator", "C02.R7", "SimpleObjectMethod:child")
